@@ -235,6 +235,16 @@ def h_major_cn_prior(I, fi):
         P.check("cn-prior.mu[x=%d]" % x, z3.And(P.z(I.to_num(m[0])) == P.z(e), P.z(I.to_num(m[1])) == P.z(e),
                                                  z3.Or(z3.And(P.z(I.to_num(m[2])) == P.z(1 - e), P.z(1 - e) * P.z(total) <= x), z3.And(P.z(I.to_num(m[2])) * P.z(total) == x, x <= P.z(1 - e) * P.z(total)))),
                 "allele probabilities (e, e, min(1 - e, x / total))", kind="post")
+    if differs and G == major + 1 and len(mu.data) == major + 1:
+        # the genotype of a mutation that arose AFTER the copy number change: one mutated copy among the total_cn present
+        dsl.cover(I, "after-cn-change-genotype")
+        row, m = cn.data[major], mu.data[major]
+        P.check("cn-prior.after-cn-change.copy-number-row", I.equal(row[0], normal) is True and (I.to_num(row[1]) - total).is_zero() and (I.to_num(row[2]) - total).is_zero(),
+                "row (normal, total, total) for the genotype of a mutation after the copy number change", kind="post")
+        P.check("cn-prior.mu[after-cn-change]", z3.And(P.z(I.to_num(m[0])) == P.z(e), P.z(I.to_num(m[1])) == P.z(e),
+                                                       z3.Or(z3.And(P.z(I.to_num(m[2])) == P.z(1 - e), P.z(1 - e) * P.z(total) <= 1), z3.And(P.z(I.to_num(m[2])) * P.z(total) == 1, 1 <= P.z(1 - e) * P.z(total)))),
+                "allele probabilities (e, e, min(1 - e, 1 / total)): a single mutated copy, clamped below 1 so that a hemizygous state (total = 1) has no log 0", kind="post")
+    P.check("cn-prior.rows-aligned", len(mu.data) == G and len(log_pi.data) == G, "one allele-probability row and one prior weight per genotype", kind="post")
     lp0 = I.to_num(log_pi.data[0])
     P.check("cn-prior.uniform-prior", all((I.to_num(v) - lp0).is_zero() for v in log_pi.data) and P.z(alg.sexp(lp0) * G) == 1, "log_pi uniform and normalised: exp(log_pi) = 1 / #genotypes", kind="post")
 
